@@ -6,12 +6,17 @@ the encoding of `codec.spec_dump`, what `buildSchema` / `compileSchema` take) an
 the encoding of `SchemaInfo.dump()`: node table, automata numbered breadth-first, mark tables, attributes, flags — exactly
 what the harness sends to the model driver).  Next to the data, per schema:
 
-  lean/Gen/SchemaFacts/<Name>.lean    one theorem per schema guard (`detB S = true`, `compatTransB S = true`, …) and their
-                                      bundle `<name>_guards : PM.Family.Facts S`, by `decide +kernel`
+  lean/Gen/Schemas.lean               the data, `familySchemas`, `extraSchemas`, `domFamilySchemas`
+  lean/Gen/Guards/<Guard>.lean        one module per schema guard (`detB`, `compatTransB`, `textLoopB`, …): per schema
+                                      `<name>_<guard> : <guard> s<Name> = true` (or `= false` where EXPECT_FALSE says so) by
+                                      `decide +kernel`, and `family_<guard> : ∀ S ∈ familySchemas, <guard> S = true`
+  lean/Gen/SchemaFacts.lean           the bundle: `<name>_guards : PM.Family.Facts s<Name>`, `family_facts`
   lean/Gen/SchemaBuilds/<Name>.lean   `<name>_builds : buildSchema <spec> = .ok <compiled>` (the model of the schema
-                                      constructor produces exactly what the real constructor produced), `decide +kernel`
-  lean/Gen/SchemaFacts.lean           `familySchemas`, `family_facts : ∀ S ∈ familySchemas, Facts S`
-  lean/Gen/SchemaBuilds.lean          `family_builds : ∀ p ∈ familySpecs, buildSchema p.1 = .ok p.2`
+                                      constructor produces exactly what the real constructor produced) and `<name>_compiles`
+                                      (the table compiler alone, automata given), `decide +kernel`
+  lean/Gen/SchemaBuilds.lean          `family_builds : ∀ p ∈ familySpecs, buildSchema p.1 = .ok p.2`, `family_compiles`
+  lean/Gen/Parsers.lean               `DOMParser.from_schema(S)` of the family schemas as `PM.DomWalk.Parser` data (rules in
+                                      the encoding of the C19 tie), `<name>_rulesOk`, `family_rulesOk`
 
 The files are deterministic functions of what the library compiled: an unchanged /repo gives byte-identical files (written
 only when the text differs), so lake does not rebuild anything.  `lean/Family/Cxx.lean` (hand-written) instantiates the
@@ -246,27 +251,51 @@ def render(items):
         lines.append("def s%s : Schema :=\n  %s" % (ident, lean_schema(dump).replace("\n", "\n  ")))
         lines.append("")
     lines.append("end PM.Gen.Schemas")
+    fam0 = [it for it in items if it[2]]
+    dom0 = [it for it in fam0 if "textStable" not in EXPECT_FALSE.get(it[0], set())]
+    lines += [
+        "", "namespace PM.Gen", "open PM PM.Gen.Schemas", "",
+        "/-- the bundled basic and list schemas and the hand-written strict, isolating and table-like variants",
+        "    (`harness/schemas.py: family()`), as the running library compiled them -/",
+        "def familySchemas : List Schema := [%s]" % ", ".join("s" + it[1] for it in fam0), "",
+        "/-- the further hand-written schemas of `harness/schemas.py: extra()` -/",
+        "def extraSchemas : List Schema := [%s]" % ", ".join("s" + it[1] for it in items if not it[2]), "",
+        "/-- the schemas of the family of which `FromDom.TextStable` holds too (the guard of C19 `parse_valid`) -/",
+        "def domFamilySchemas : List Schema := [%s]" % ", ".join("s" + it[1] for it in dom0), "",
+        "theorem domFamily_sub : ∀ S ∈ domFamilySchemas, S ∈ familySchemas := by",
+        "  intro S hS",
+        "  simp only [domFamilySchemas, List.mem_cons, List.not_mem_nil, or_false] at hS",
+        "  simp only [familySchemas, List.mem_cons, List.not_mem_nil, or_false]",
+        "  rcases hS with " + " | ".join(["rfl"] * len(dom0)) + " <;> simp",
+        "", "end PM.Gen"]
     files["Schemas.lean"] = "\n".join(lines) + "\n"
 
-    for name, ident, fam, sd, dump in items:
-        # guards
-        lid = ident[0].lower() + ident[1:]
-        bad = EXPECT_FALSE.get(name, set())
-        ls = [HEADER.rstrip("\n"), "import Gen.Schemas", "import Props.Family", "namespace PM.Gen.SchemaFacts",
+    fam_items = [it for it in items if it[2]]
+    dom_items = [it for it in fam_items if "textStable" not in EXPECT_FALSE.get(it[0], set())]
+    # one module per guard: a check builds (and is broken by) only the guards its theorems use
+    for field, term in GUARDS + EXTRA_GUARDS:
+        Field = field[0].upper() + field[1:]
+        lg = [HEADER.rstrip("\n"), "import Gen.Schemas", "import Props.Family", "namespace PM.Gen.Guards",
               "open PM PM.FromDom PM.Gen.Schemas", ""]
-        for field, term in GUARDS + EXTRA_GUARDS:
-            ls.append("theorem %s_%s : %s = %s := by decide +kernel" % (
-                lid, field, term.format(S="s" + ident), "false" if field in bad else "true"))
-        ls.append("")
-        if not any(f in bad for f, _ in GUARDS):
-            ls.append("/-- every schema guard of the bundle `PM.Family.Facts` holds of schema `%s` (kernel-evaluated) -/" % name)
-            ls.append("theorem %s_guards : PM.Family.Facts s%s :=\n  ⟨%s⟩" % (
-                lid, ident, ", ".join("%s_%s" % (lid, f) for f, _ in GUARDS)))
-            ls.append("")
-        elif fam:
-            raise RuntimeError("EXPECT_FALSE names a bundle guard of the family schema " + name)
-        ls.append("end PM.Gen.SchemaFacts")
-        files["SchemaFacts/%s.lean" % ident] = "\n".join(ls) + "\n"
+        for name, ident, fam, sd, dump in items:
+            lg.append("theorem %s_%s : %s = %s := by decide +kernel" % (
+                lname(ident), field, term.format(S="s" + ident), "false" if field in EXPECT_FALSE.get(name, set()) else "true"))
+            if fam and field in EXPECT_FALSE.get(name, set()) and (field, term) in GUARDS:
+                raise RuntimeError("EXPECT_FALSE names a bundle guard of the family schema " + name)
+        over = dom_items if (field, term) in EXTRA_GUARDS else fam_items
+        lg += ["", "end PM.Gen.Guards", "", "namespace PM.Gen", "open PM PM.FromDom PM.Gen.Schemas", "",
+               "theorem family_%s : ∀ S ∈ %s, %s = true := by" % (
+                   field, "domFamilySchemas" if (field, term) in EXTRA_GUARDS else "familySchemas", term.format(S="S")),
+               "  intro S hS",
+               "  simp only [%s, List.mem_cons, List.not_mem_nil, or_false] at hS" % (
+                   "domFamilySchemas" if (field, term) in EXTRA_GUARDS else "familySchemas"),
+               "  rcases hS with " + " | ".join(["rfl"] * len(over))]
+        lg += ["  · exact Guards.%s_%s" % (lname(it[1]), field) for it in over]
+        lg += ["", "end PM.Gen"]
+        files["Guards/%s.lean" % Field] = "\n".join(lg) + "\n"
+
+    for name, ident, fam, sd, dump in items:
+        lid = ident[0].lower() + ident[1:]
         # construction
         lb = [HEADER.rstrip("\n"), "import Gen.Schemas", "import PM.SchemaBuild", "import Proofs.SchemaDecEq",
               "import Proofs.BuildKernel",
@@ -283,9 +312,8 @@ def render(items):
               "end PM.Gen.SchemaBuilds"]
         files["SchemaBuilds/%s.lean" % ident] = "\n".join(lb) + "\n"
 
-    fam_items = [it for it in items if it[2]]
     par_items = [it for it in fam_items if PARSERS.get(it[0])]
-    lp = [HEADER.rstrip("\n"), "import Gen.SchemaFacts", "import PM.DomWalk", "namespace PM.Gen.Parsers",
+    lp = [HEADER.rstrip("\n"), "import Gen.Schemas", "import PM.DomWalk", "namespace PM.Gen.Parsers",
           "open PM PM.FromDom PM.DomWalk PM.Gen.Schemas", ""]
     for it in par_items:
         lp += ["/-- `DOMParser.from_schema` of schema `%s`: the rules of the `parseDOM` specs, in the parser's order -/" % it[0],
@@ -301,35 +329,19 @@ def render(items):
     lp += ["  · exact ⟨Parsers.%s_rulesOk, by simp [familySchemas, Parsers.p%s]⟩" % (lname(it[1]), it[1]) for it in par_items]
     lp += ["", "end PM.Gen"]
     files["Parsers.lean"] = "\n".join(lp) + "\n"
-    lf = [HEADER.rstrip("\n")] + ["import Gen.SchemaFacts.%s" % it[1] for it in items] + [
-        "namespace PM.Gen", "open PM PM.Gen.Schemas", "",
-        "/-- the bundled basic and list schemas and the hand-written strict, isolating and table-like variants",
-        "    (`harness/schemas.py: family()`), as the running library compiled them -/",
-        "def familySchemas : List Schema := [%s]" % ", ".join("s" + it[1] for it in fam_items), "",
-        "/-- the further hand-written schemas of `harness/schemas.py: extra()` -/",
-        "def extraSchemas : List Schema := [%s]" % ", ".join("s" + it[1] for it in items if not it[2]), "",
+    lf = [HEADER.rstrip("\n")] + ["import Gen.Guards.%s" % (f[0].upper() + f[1:]) for f, _ in GUARDS + EXTRA_GUARDS] + [
+        "namespace PM.Gen", "open PM PM.Gen.Schemas", ""]
+    for name, ident, fam, sd, dump in items:
+        if not any(f in EXPECT_FALSE.get(name, set()) for f, _ in GUARDS):
+            lf += ["/-- every schema guard of the bundle `PM.Family.Facts` holds of schema `%s` (kernel-evaluated) -/" % name,
+                   "theorem %s_guards : PM.Family.Facts s%s :=\n  ⟨%s⟩" % (
+                       lname(ident), ident, ", ".join("Guards.%s_%s" % (lname(ident), f) for f, _ in GUARDS)), ""]
+    lf += [
         "theorem family_facts : ∀ S ∈ familySchemas, PM.Family.Facts S := by",
         "  intro S hS",
         "  simp only [familySchemas, List.mem_cons, List.not_mem_nil, or_false] at hS",
         "  rcases hS with " + " | ".join(["rfl"] * len(fam_items)),
-    ] + ["  · exact SchemaFacts.%s_guards" % (it[1][0].lower() + it[1][1:]) for it in fam_items]
-    dom_items = [it for it in fam_items if "textStable" not in EXPECT_FALSE.get(it[0], set())]
-    lf += [
-        "",
-        "/-- the schemas of the family of which `FromDom.TextStable` holds too (the guard of C19 `parse_valid`) -/",
-        "def domFamilySchemas : List Schema := [%s]" % ", ".join("s" + it[1] for it in dom_items), "",
-        "theorem domFamily_sub : ∀ S ∈ domFamilySchemas, S ∈ familySchemas := by",
-        "  intro S hS",
-        "  simp only [domFamilySchemas, List.mem_cons, List.not_mem_nil, or_false] at hS",
-        "  simp only [familySchemas, List.mem_cons, List.not_mem_nil, or_false]",
-        "  rcases hS with " + " | ".join(["rfl"] * len(dom_items)) + " <;> simp",
-        "",
-        "theorem domFamily_textStable : ∀ S ∈ domFamilySchemas, PM.FromDom.textStableB S = true := by",
-        "  intro S hS",
-        "  simp only [domFamilySchemas, List.mem_cons, List.not_mem_nil, or_false] at hS",
-        "  rcases hS with " + " | ".join(["rfl"] * len(dom_items)),
-    ] + ["  · exact SchemaFacts.%s_textStable" % (it[1][0].lower() + it[1][1:]) for it in dom_items] + [
-        "", "end PM.Gen"]
+    ] + ["  · exact %s_guards" % lname(it[1]) for it in fam_items] + ["", "end PM.Gen"]
     files["SchemaFacts.lean"] = "\n".join(lf) + "\n"
 
     lb = [HEADER.rstrip("\n")] + ["import Gen.SchemaBuilds.%s" % it[1] for it in items] + [
@@ -355,8 +367,10 @@ def render(items):
 def write(files):
     """write the files whose text changed; remove stale per-schema files; returns the list of changed paths"""
     changed = []
-    for sub in ("SchemaFacts", "SchemaBuilds"):
+    for sub in ("Guards", "SchemaBuilds", "SchemaFacts"):
         d = os.path.join(GEN_DIR, sub)
+        if sub == "SchemaFacts" and not os.path.isdir(d):
+            continue        # the layout of an earlier version (one module per schema): cleaned when met
         os.makedirs(d, exist_ok=True)
         for f in os.listdir(d):
             if f.endswith(".lean") and "%s/%s" % (sub, f) not in files:
@@ -383,15 +397,17 @@ def lname(ident):
     return ident[0].lower() + ident[1:]
 
 
-def gen_theorems(items, builds, parsers=False):
-    """fully qualified names of the generated theorems a check audits"""
+def gen_theorems(items, builds, parsers=False, guards=None):
+    """fully qualified names of the generated theorems a check audits; `guards` = the guard fields whose modules the
+    check builds (None = all, with the bundle)"""
     names = []
-    for name, ident, fam, sd, dump in items:
-        for f, _ in GUARDS + EXTRA_GUARDS:
-            names.append("PM.Gen.SchemaFacts.%s_%s" % (lname(ident), f))
-        if not any(f in EXPECT_FALSE.get(name, set()) for f, _ in GUARDS):
-            names.append("PM.Gen.SchemaFacts.%s_guards" % lname(ident))
-    names += ["PM.Gen.family_facts", "PM.Gen.domFamily_sub", "PM.Gen.domFamily_textStable"]
+    for f, _ in GUARDS + EXTRA_GUARDS:
+        if guards is None or f in guards:
+            names += ["PM.Gen.Guards.%s_%s" % (lname(it[1]), f) for it in items] + ["PM.Gen.family_" + f]
+    names.append("PM.Gen.domFamily_sub")
+    if guards is None:
+        names += ["PM.Gen.%s_guards" % lname(it[1]) for it in items
+                  if not any(f in EXPECT_FALSE.get(it[0], set()) for f, _ in GUARDS)] + ["PM.Gen.family_facts"]
     if parsers:
         names += ["PM.Gen.Parsers.%s_rulesOk" % lname(it[1]) for it in items if PARSERS.get(it[0])] + ["PM.Gen.family_rulesOk"]
     if builds:
@@ -402,13 +418,23 @@ def gen_theorems(items, builds, parsers=False):
     return names
 
 
-def guard_table(items):
+def guards_used(prop):
+    """the guard fields whose generated modules lean/Family/<prop>.lean imports"""
+    used = []
+    for m in core.import_closure("Family." + prop):
+        if m.startswith("Gen.Guards."):
+            f = m.split(".")[-1]
+            used.append(f[0].lower() + f[1:])
+    return sorted(used)
+
+
+def guard_table(items, guards=None):
     """{schema: {"family": bool, "guards": {guard: the truth value the kernel confirmed}}} (what the generated theorems
     state; whether they were confirmed is the build's outcome)"""
     out = {}
     for name, ident, fam, sd, dump in items:
         bad = EXPECT_FALSE.get(name, set())
-        out[name] = {"family": fam, "guards": {f: f not in bad for f, _ in GUARDS + EXTRA_GUARDS}}
+        out[name] = {"family": fam, "guards": {f: f not in bad for f, _ in GUARDS + EXTRA_GUARDS if guards is None or f in guards}}
     return out
 
 
